@@ -1,6 +1,4 @@
-import SMV.Lemmas.Top
-import SMV.Lemmas.DynRun
-import SMV.Static
+import SMV.Lemmas.Rules
 /-
   C13 — Ill-formed definitions are rejected at compile time, never reinterpreted.
 
@@ -15,32 +13,6 @@ open SMV
 
 /-- the macro accepts the definition -/
 def Accepted (d : Def) (m : Machine) : Prop := parseMachine d = .ok m ∧ m.validate = .ok ()
-
-theorem parseMachine_top (d : Def) (m : Machine) (h : parseMachine d = .ok m) :
-    ∃ a, parseTop d {} = .ok a ∧ a.name = some m.name ∧ a.initial = some m.initial ∧ m.events = a.events.getD [] := by
-  unfold parseMachine at h
-  cases ht : parseTop d {} with
-  | error e => rw [ht] at h; cases h
-  | ok a =>
-    rw [ht] at h
-    simp only at h
-    cases hn : a.name with
-    | none => rw [hn] at h; cases h
-    | some name =>
-      rw [hn] at h
-      simp only at h
-      cases hi : a.initial with
-      | none => rw [hi] at h; cases h
-      | some ini =>
-        rw [hi] at h
-        simp only at h
-        cases hst : a.states with
-        | none => rw [hst] at h; cases h
-        | some states =>
-          rw [hst] at h
-          simp only [Except.ok.injEq] at h
-          subst h
-          exact ⟨a, rfl, by simp [hn], by simp [hi], rfl⟩
 
 /-- **R1 — required sections.** -/
 theorem r1_required_sections (d : Def) (m : Machine) (h : Accepted d m) :
@@ -98,18 +70,6 @@ theorem r56_superstates_ok (d : Def) (m : Machine) (h : Accepted d m) :
   obtain ⟨st, hp⟩ := g2 items hi
   exact (parseStates_spec items st hp).supsOk
 
-theorem isSuperstate_iff {items : List TItem} {st : PS} (hp : parseStates items {} = .ok st) (x : Name) :
-    st.hier.isSuperstate x = true ↔ x ∈ allSups items := by
-  have sp := parseStates_spec items st hp
-  simp only [Hierarchy.isSuperstate, sp.lookup, lookup_spec x _ sp.distinct.sups, Option.isSome_map]
-  constructor
-  · intro hf
-    by_cases hn : x ∈ allSups items
-    · exact hn
-    · rw [findSup_none_Bs x _ hn] at hf
-      simp at hf
-  · exact findSup_some_Bs x _
-
 /-- **R4 — the initial state is a declared leaf state** (not undeclared, not a superstate). -/
 theorem r4_initial_is_leaf (d : Def) (m : Machine) (h : Accepted d m) :
     ∃ items, lastStates d none = some items ∧ m.initial ∈ allLeaves items ∧ m.initial ∉ allSups items := by
@@ -124,27 +84,6 @@ theorem r4_initial_is_leaf (d : Def) (m : Machine) (h : Accepted d m) :
     unfold Machine.validate at hv
     rw [hh, (isSuperstate_iff hp m.initial).mpr hsup] at hv
     simp at hv
-
-theorem validateTransition_sources (m : Machine) (tr : Transition) (h : validateTransition m tr = .ok ()) :
-    tr.sources ≠ [] ∧ validateSources m tr.sources = .ok () := by
-  unfold validateTransition at h
-  by_cases hemp : tr.sources.isEmpty = true
-  · simp [hemp] at h
-  · simp only [hemp, Bool.false_eq_true, ↓reduceIte] at h
-    refine ⟨by intro he; simp [he] at hemp, ?_⟩
-    by_cases hsup : m.hierarchy.isSuperstate tr.target = true
-    · simp only [hsup, ↓reduceIte] at h
-      cases hr : m.hierarchy.resolveTarget tr.target with
-      | none => simp [hr] at h
-      | some r =>
-        simp only [hr] at h
-        by_cases hc : r ∈ m.states
-        · simpa [hc] using h
-        · simp [hc] at h
-    · simp only [hsup, Bool.false_eq_true, ↓reduceIte] at h
-      by_cases hc : tr.target ∈ m.states
-      · simpa [hc] using h
-      · simp [hc] at h
 
 /-- **R7, R8, R9(non-empty sources), R10 — events**: snake_case name, at least one transition, every
     transition with at least one source, every source a declared leaf or superstate, every target a
@@ -204,24 +143,6 @@ theorem r7_to_r10_events (d : Def) (m : Machine) (h : Accepted d m) :
             simp [Hierarchy.resolveTarget, hsup]
           rw [this, hs, sp.leaves] at htgt
           exact htgt
-
-/-- the methods generated for the edges out of a declared leaf `s` are among the inherent methods
-    rustc sees on `M<_, s>` -/
-theorem methodNames_sublist (m : Machine) (s : Name) (hs : s ∈ m.states) :
-    ((m.outgoing s).map fun e => toSnake e.event).Sublist (Static.methodNames (genTypestate m) s) := by
-  have hitem : genStateImpl m s ∈ genTypestate m := by
-    simp only [genTypestate, genStateImpls, List.mem_append, List.mem_map]
-    exact Or.inl (Or.inr (Or.inl ⟨s, hs, rfl⟩))
-  have h1 : (Static.itemMethods s (genStateImpl m s)) ∈ (genTypestate m).map (Static.itemMethods s) :=
-    List.mem_map.mpr ⟨_, hitem, rfl⟩
-  have h2 := List.sublist_flatten_of_mem h1
-  have h3 : ((m.outgoing s).map fun e => toSnake e.event).Sublist (Static.itemMethods s (genStateImpl m s)) := by
-    simp only [genStateImpl, Static.itemMethods, ↓reduceIte, List.map_map]
-    exact List.sublist_append_right _ _
-  have h4 : ((genTypestate m).map (Static.itemMethods s)).flatten = Static.methodNames (genTypestate m) s := by
-    simp [Static.methodNames, List.flatMap]
-  rw [← h4]
-  exact h3.trans h2
 
 /-- **R11 — one event never has two transitions applicable to the same leaf.** If the emitted code passes
     rustc's duplicate-method rule (E0592), every leaf has at most one edge per event. -/
